@@ -17,17 +17,9 @@ def signature(msg, case_lines):
         return "petreereg:unbalanced-latency"
     if prim == "updown" and "inc&dec-at-limit" in msg:
         return "updown:inc&dec-at-limit"
-    if prim in ("mins", "maxs"):
-        # signed compare by subtraction: only inputs whose difference does not fit into w bits
-        m2 = re.search(r"params=\[(\d+)\] in=\[([01]+), ([01]+)\]", msg)
-        if m2:
-            w = int(m2.group(1))
-            def sint(s):
-                v = int(s, 2)
-                return v - (1 << w) if v >> (w - 1) else v
-            d = sint(m2.group(2)) - sint(m2.group(3))
-            if not (-(1 << (w - 1)) <= d < (1 << (w - 1))) or not (-(1 << (w - 1)) <= -d < (1 << (w - 1))):
-                return "%s:signed-compare-overflow" % prim
+    if prim in ("mins", "maxs") and "signed-difference-overflows" in msg:
+        # frontend SInt compare = sign of a w-bit subtraction: only inputs whose difference does not fit into w bits
+        return "%s:signed-compare-overflow" % prim
     return "prim:" + prim
 
 
